@@ -1,0 +1,14 @@
+//go:build verif
+
+package lokiapi
+
+// Contracts for the deductive verifier in /verif (govc). Comment-only: no code is added.
+
+//@ func (OptPrometheusDuration).Get
+//@   inline
+//@ func (OptPrometheusDuration).Or
+//@   inline
+//@ func (OptLokiTime).Get
+//@   inline
+//@ func (OptLokiTime).Or
+//@   inline
